@@ -41,6 +41,23 @@ NOTES = {
  "C10-r2-2": "missed at first (size CLASSES never land on the byte boundary of the drain buffer); caught after exact-size answers (reply length a function of the name) put the last pipelined frame at free-1, free, free+1 and free+2 bytes",
  "C01-r2-3": "missed at first (the foreign signer evil.test. shares no text with the victim's zone); caught after the sibling was renamed ne.test., a textual but not label-wise suffix of zone.test.",
  "C01-r2-1": "missed at first; caught after the question kind whost and the tampering wildforeign (wildcard expansion replayed over an existing name, next-closer 'denied' by an unsigned NSEC of the parent zone)",
+ "C04-r2-1": "missed at first (the denial-proof cache was outside Lease.tla); caught by the DenialProof tier: an older long-lived NSEC + a later short SOA entry, the synthesised reply must not outlive the SOA piece",
+ "C08-r2-1": "missed at first; caught by the AliasLease tier (an alias in a stable zone whose chase is served from a cached denial of a leased zone; asked again after the lease ended and the parent re-pointed)",
+ "C13-r2-2": "missed at first; caught by the FailEcs tier (SingleProbe: a /0 ECS client and a plain client elect two probes after the backoff)",
+ "C13-r2-3": "missed at first; caught by the FailEcs tier (NoUpstreamInBackoff: followers of a leader that failed for their ECS audience each go upstream)",
+ "C06-r2-3": "missed at first; caught by the ServeEngine tier (a negative answer signed only in authority, cached, then served from bytes to a DO=0 client through the real UDP/TCP engines)",
+ "C05-r2-3": "missed by C05 at first, caught by C10; C05 now catches it through the ServeEngine tier (engine entry == decoded entry)",
+ "C05-r2-1": "missed by C05 (no ECS query below an RFC 8020 cut in its families), caught by C19 (EcsDenial.tla: a wire-born ECS query must not consume a shared cut)",
+ "C01-r2-2": "missed by C01 and C04, caught by C06 (ComposedAD: AD only if every piece of a composed reply was validated, wire chase)",
+ "C02-r2-1": "missed at first (one ordinary data type, so neighbouring bitmaps never differed); caught after TXT joined the type universe and zone wildtypes (wildcard {A}, covering owner {TXT}) was added",
+ "C02-r2-2": "MISSED so far: needs two validations of one request tree wanting the same NSEC3 digest at once, the first parked inside the computation (HashMemo tier being built)",
+ "C07-r2-1": "MISSED so far: needs a second query answered through a delegation's provisional cache entry while the first is parked resolving a glue-less NS host (DelegAssembly tier being built)",
+ "C07-r2-2": "missed at first (one stray datagram per exchange); caught after the pre-datagram kind flood (twelve wrong-ID datagrams echoing the right question)",
+ "C11-r2-2": "missed by C11, caught by C13 (a capacity shed is request-local: never recorded, never served to others)",
+ "C11-r2-3": "missed at first (no reply was ever refused by the kernel); caught by C10 and C11 after bursts holding a destination the kernel refuses (raw-socket source port 0): nobody may see a second copy",
+ "C19-r2-2": "missed at first (the refresh scenario only used a shared entry); caught after the scoped variants: a hit on an entry stored under an ECS scope must not reach upstream in the background",
+ "C20-r2-1": "missed at first; caught after one case in three is served as the worker's replay pass (Chain.SetReplay)",
+ "C20-r2-3": "missed at first; caught after the well-known prefix is also configured as the fallback of an omitted / all-unusable prefix list",
 }
 rows = []
 for p in sorted(glob.glob(os.path.join(V, "seeded", "*", "meta.json"))):
